@@ -323,10 +323,12 @@ class Writer:
                 w = len(ind) + len(marker) + (1 if blank_first else it.pad)
                 it.a['w'] = w
                 item_lines = []
+                # a marker with nothing after it may still be followed by spaces / tabs (they never count)
+                mtrail = '' if self.canonical else t.choice(MARKER_TRAILS)
                 if not inner:
-                    item_lines.append(L(ind + marker, False, [it]))
+                    item_lines.append(L(ind + marker + mtrail, False, [it]))
                 elif blank_first:
-                    item_lines.append(L(ind + marker, False, [it]))
+                    item_lines.append(L(ind + marker + mtrail, False, [it]))
                     for rec in inner:
                         item_lines.append(self._item_line(rec, w))
                 else:
@@ -356,6 +358,10 @@ class Writer:
         return L(' ' * w + rec.text, rec.lazy, rec.starts, False, False)
 
 
+MARKER_TRAILS = ['', '', '', ' ', '  ', '    ', '     ', '       ', '\t', ' \t', '\t\t']
+BLANK_SPELLINGS = ['', '', '', '', '', '', ' ', '  ', '   ', '\t']
+
+
 def _has_setext(b):
     if b.kind == 'setext':
         return True
@@ -377,6 +383,11 @@ def write(doc, t, opts=None):
                 tbl.a.setdefault('row_lines', {})[ri] = i + 1
             else:
                 node.a['line'] = i + 1
+    if not w.canonical:
+        # a blank line may hold spaces / tabs
+        for rec in lines[:-1]:
+            if rec.blank and rec.text == '':
+                rec.text = t.choice(BLANK_SPELLINGS)
     text = '\n'.join(rec.text for rec in lines)
     if lines and (doc.final_newline or lines[-1].text == ''):
         text += '\n'        # an empty last line only exists if it is terminated
